@@ -24,9 +24,20 @@ PROP = dict(
           "big: a StringReader over a sparse anonymous mapping of k*2^32 + extra bytes (k = 1..3): all sixteen 24/48-bit accessors (get/pget, u/s, "
           "b/l, advance on/off) and, as controls, every ordinary accessor and raw reads, at offsets at, just below, straddling and above a "
           "multiple of 2^32 and at the end of the data; the bytes at the same offset minus every multiple of 2^32 hold the complemented pattern. "
+          "nest: 'all read orders' - a stream of 1..16 appended fields (scalars of every type and form, raw blocks, C strings) decoded the way nested "
+          "formats are decoded: the parent reader is built by each of the six constructor forms ((pointer, size), const string&, shared_ptr<string>, each "
+          "with and without an initial offset placed at a field boundary), its cursor is moved by earlier reads, and any field may start a sub-reader "
+          "(sub(o), sub(o,n), subx(o), subx(o,n), covering 1..8 fields, up to three levels deep) whose where()/size()/remaining()/eof() must be those of "
+          "a fresh reader over exactly that range and through which the covered fields are read with the cursor-relative accessors (get_*, read, readx, "
+          "getv, peek+skip, get_cstr) and compared with the independent decoder and the values written; the parent's cursor must not move, and the parent "
+          "then skips or re-reads the fields. Any field may instead be read with the templated get<T>(advance, size) with an explicit encoded width that "
+          "covers the value and the 0..7 fields after it (T a packed byte record, le_/be_ wrapper of the field's width or uint8_t; with and without an "
+          "advance=false peek): value by the independent decoder, cursor = previous + size. Exhaustive: three 6-field layouts x six constructors x one such "
+          "action at every field in every form, alone and followed by a second one at the next field. "
           "Non-trivial: a sequence using >= 2 distinct operation kinds of which at least one is a multi-byte endian-explicit "
           "(r/b/l) scalar; a 24/48-bit buffer of >= 6 bytes with a sign bit set; a bit history of >= 9 bits with >= 2 multi-bit reads; "
-          "an aliased write on a prefix of >= 4 bytes; a >4 GiB case with a 24/48-bit read ending above 2^32. "
+          "an aliased write on a prefix of >= 4 bytes; a nest case with a sub-reader taken from a reader whose cursor is not 0 or an "
+          "explicit-width get<T> with size > sizeof(T); a >4 GiB case with a 24/48-bit read ending above 2^32. "
           "Distinct = distinct case encodings (hash)."),
     assumptions=["little-endian host only: 'regardless of host byte order' is checked by an independent shift/multiply decoder, not by running on a big-endian host",
                  "BitReader reads are generated inside its length only (BitReader is unchecked by design)",
@@ -36,6 +47,8 @@ PROP = dict(
                  "or identical to the argument; a destination that makes the writer grow is a reported defect of the unchanged tree (pput resizes "
                  "before it copies; corpus/c01/alias_pput_grow.case.reported) and a partly overlapping one is a memcpy overlap - both are counted "
                  "under `excluded`",
+                 "nest: get<T>(advance, size) is called with size >= sizeof(T) only and with T of alignment 1 (a reference to a native integer at an odd "
+                 "offset would be the caller's undefined behaviour); size is taken as the encoded width of the value, as getv(size) and pget<T>(offset, size) take it",
                  "big: needs 4..12 GiB of address space (not memory); where the mapping fails the case is counted under `excluded`"],
     min_evaluations_quick=17000000, min_evaluations_thorough=18000000,
     technique=("property-based testing: rapidcheck operation sequences + exhaustive small-scope enumeration against an independent "
